@@ -203,13 +203,14 @@ func keysOf(m map[string]bool) string {
 }
 
 func C01(c *Ctx) {
-	c.R.Explanation = "Decides structural necessary conditions of match soundness on the SSA form of package match (closure of Matcher.Match): (R1) every write into a Bindings map is a bind-if-absent — dominated by the not-found edge of a lookup of the same key in the same map — and nothing is deleted from a Bindings map, so given bindings survive unchanged; (R2) the name bound derives only from the pattern side and the value bound only from the message side; (R3) a pattern key missing from the message ends the match unless the value is an optional variable; (R4) in the inequality helper each operator constant selects the comparison of that operator with the message value on the left and the bound on the right, a binding set is returned only when the relation held, and no operator in the prefix list is a prefix of a later one; (R5) a scalar message member matched by a pattern constant is removed from the set of available members; (R6) inside every loop over alternatives (message members, candidate binding sets) bindings are extended only in storage created in that iteration, so a binding made for a failed alternative cannot leak. Containment of the instantiated pattern in the message is not decided."
+	c.R.Explanation = "Decides structural necessary conditions of match soundness on the SSA form of package match (closure of Matcher.Match): (R1) every write into a Bindings map is a bind-if-absent — dominated by the not-found edge of a lookup of the same key in the same map — and nothing is deleted from a Bindings map, so given bindings survive unchanged; (R2) the name bound derives only from the pattern side and the value bound only from the message side; (R3) a pattern key missing from the message ends the match unless the value is an optional variable; (R4) in the inequality helper each operator constant selects the comparison of that operator with the message value on the left and the bound on the right, a binding set is returned only when the relation held, and no operator in the prefix list is a prefix of a later one; (R5) a scalar message member matched by a pattern constant is removed from the set of available members; (R6) inside every loop over alternatives (message members, candidate binding sets) bindings are extended only in storage created in that iteration, so a binding made for a failed alternative cannot leak; (R7) as C03-R1 restricted to pattern and message: no instruction reachable from Match can write them, so the bindings returned are bindings for the pattern and message the caller still holds (a pattern rewritten in place makes the next answer an answer about a different pattern). Containment of the instantiated pattern in the message is not decided."
 	c.R.Rule("C01-R1", "E3", "extension-only binding", 2)
 	c.R.Rule("C01-R2", "E5", "key from the pattern, value from the message", 2)
 	c.R.Rule("C01-R3", "E3", "missing key means no match unless optional", 1)
 	c.R.Rule("C01-R4", "E6", "inequality table", 7)
 	c.R.Rule("C01-R5", "E3", "matched scalar members are consumed", 1)
 	c.R.Rule("C01-R6", "E5+E3", "bindings private to each alternative", 2)
+	c.R.Rule("C01-R7", "E1", "matching leaves the pattern and the message intact (answers are about the pattern and message the caller holds)", 8)
 	m := c.newMatchModel()
 	for _, f := range m.fns {
 		c.R.Fn(fname(f))
@@ -397,6 +398,13 @@ func C01(c *Ctx) {
 	// ---- R6
 	if m.branchPrivacy("C01-R6") == 0 {
 		c.R.Break("C01-R6: no bind or writer call inside a loop over alternatives found")
+	}
+	// ---- R7: the pattern the caller holds is the pattern that was matched
+	if a, _ := c.matchAnalysis(); a != nil {
+		c.reportEffects("C01-R7", a, func(e pta.Effect) bool {
+			return e.Target.Kind == pta.KRoot && (e.Target.Root == "pattern" || e.Target.Root == "fact")
+		})
+		c.dischargeWrites("C01-R7", a)
 	}
 	var ws []string
 	for _, f := range m.fns {
@@ -630,12 +638,13 @@ func valueOf(in ssa.Instruction) ssa.Value {
 }
 
 func C02(c *Ctx) {
-	c.R.Explanation = "Decides structural necessary conditions of match completeness on the SSA form of package match: (R1) a loop over alternatives (message members or candidate binding sets) is left only by exhaustion or by returning an error — no 'first match wins' exit; (R2) consumed message elements are removed from a copy made for that alternative, never from the map being ranged or shared with another alternative, and every recorded success records its own remaining-elements copy; (R3) in the map case nothing compares the size of the message map and the message map is ranged only for a property variable, so extra members cannot prevent a match; (R4) left-over scalar members are merged under fresh indexes starting at the length of the message array, so they cannot overwrite remaining structured members; (R5) as C01-R6: bindings are private to each alternative; (R6) as C03-R1 restricted to pattern and message: no instruction can write them, so a pattern keeps its solutions across uses. That the union of explored branches is the full set of embeddings is not decided."
+	c.R.Explanation = "Decides structural necessary conditions of match completeness on the SSA form of package match: (R1) a loop over alternatives (message members or candidate binding sets) is left only by exhaustion or by returning an error — no 'first match wins' exit; (R2) consumed message elements are removed from a copy made for that alternative, never from the map being ranged or shared with another alternative, and every recorded success records its own remaining-elements copy; (R3) in the map case nothing compares the size of the message map and the message map is ranged only for a property variable, so extra members cannot prevent a match; (R4) left-over scalar members are merged under fresh indexes starting at the length of the message array, so they cannot overwrite remaining structured members; (R5) as C01-R6: bindings are private to each alternative; (R6) as C03-R1 restricted to pattern and message: no instruction can write them, so a pattern keeps its solutions across uses; (R7) every lookup of a pattern-named member in a message map uses the comma-ok form, branches on the ok flag and never tests the value for nil, so a null member is present. That the union of explored branches is the full set of embeddings is not decided."
 	c.R.Rule("C02-R1", "E3", "no early success exit from a loop over alternatives", 4)
 	c.R.Rule("C02-R2", "E1", "consumption on a private copy", 2)
 	c.R.Rule("C02-R3", "E6", "extra members never consulted", 1)
 	c.R.Rule("C02-R4", "E5", "left-over members merged under fresh indexes", 1)
 	c.R.Rule("C02-R5", "E5+E3", "bindings private to each alternative", 2)
+	c.R.Rule("C02-R7", "E5", "a message member's presence is decided by the lookup's ok flag (null is a value)", 1)
 	c.R.Rule("C02-R6", "E1", "matching leaves the pattern and the message intact (a modified pattern loses solutions on its next use)", 8)
 	m := c.newMatchModel()
 	for _, f := range m.fns {
@@ -795,6 +804,52 @@ func C02(c *Ctx) {
 	}
 	if n4 == 0 {
 		c.R.Break("C02-R4: the merge of left-over members was not found")
+	}
+	// ---- R7: presence of a member is decided by the lookup's ok flag
+	n7 := 0
+	for _, f := range m.fns {
+		ssau.Instrs(f, func(in ssa.Instruction) {
+			lk, ok := in.(*ssa.Lookup)
+			if !ok || !m.has(lk.X, "F") || m.has(lk.X, "P") || !m.has(lk.Index, "P") {
+				return
+			}
+			if _, isMap := lk.X.Type().Underlying().(*types.Map); !isMap {
+				return
+			}
+			n7++
+			key := fmt.Sprintf("%s: message member lookup #%d", fname(f), n7)
+			if !lk.CommaOk {
+				c.R.Violate("C02-R7", key, c.pos(lk), "the message member named by the pattern is read without the presence flag: a member whose value is null cannot be told from an absent member, so a pattern that requires (or binds) null finds no match")
+				return
+			}
+			var val, found ssa.Value
+			for _, r := range ssau.Referrers(lk) {
+				if ex, isEx := r.(*ssa.Extract); isEx {
+					if ex.Index == 0 {
+						val = ex
+					} else {
+						found = ex
+					}
+				}
+			}
+			okFlag := false
+			if found != nil {
+				for _, r := range ssau.Referrers(found) {
+					if _, isIf := r.(*ssa.If); isIf {
+						okFlag = true
+					}
+				}
+			}
+			nilTest := ""
+			if val != nil {
+				for _, r := range ssau.Referrers(val) {
+					if bo, isB := r.(*ssa.BinOp); isB && (bo.Op == token.EQL || bo.Op == token.NEQ) && (ssau.IsNilConst(bo.X) || ssau.IsNilConst(bo.Y)) {
+						nilTest = c.pos(bo)
+					}
+				}
+			}
+			c.R.Check(okFlag && nilTest == "", "C02-R7", key, c.pos(lk), "presence is decided by the lookup's ok flag; the value is not tested for nil", "presence of the member is not decided by the ok flag alone (ok flag branches="+fmt.Sprint(okFlag)+", nil test of the value at "+nilTest+"): a null member is treated as absent")
+		})
 	}
 	// ---- R6
 	if a, _ := c.matchAnalysis(); a != nil {
